@@ -149,8 +149,11 @@ class ModelModifier:
     # buffer offsets.
 
     # remove all the constant from the model.
+    # Zero-length constants stay in the flatbuffer: a placeholder size of 1
+    # would become 0 in the final pass, flatbuffers would drop the field and
+    # every offset computed from the dummy serialization would be off.
     for buffer in quantized_model.buffers:
-      if buffer.data is not None:
+      if buffer.data is not None and len(buffer.data) > 0:
         buffer.data = None
         buffer.offset = 1
         buffer.size = 1
@@ -162,7 +165,7 @@ class ModelModifier:
       dummy_bytearray += b'\0'
     for buffer_idx, buffer in enumerate(quantized_model.buffers):
       buffer_data = self._constant_map[buffer_idx]
-      if buffer_data is None:
+      if buffer_data is None or len(buffer_data) == 0:
         continue
       buffer.offset = len(dummy_bytearray)
       buffer.size = len(buffer_data)
@@ -179,7 +182,7 @@ class ModelModifier:
       model_bytearray += b'\0'
     for buffer_idx, _ in enumerate(quantized_model.buffers):
       buffer_data = self._constant_map[buffer_idx]
-      if buffer_data is None:
+      if buffer_data is None or len(buffer_data) == 0:
         continue
       model_bytearray += buffer_data
       while len(model_bytearray) % 16:
